@@ -3,7 +3,7 @@ import json
 import sys
 
 
-def views(m, queries, order=None):
+def views(m, queries, order=None, only=None):
     """every view of m; order: None = as listed, 'rev' = reversed, an int = shuffled with that seed.  The value of a view must not
     depend on which other views were evaluated before it (what is cached), so all orders must agree."""
     import random
@@ -15,6 +15,9 @@ def views(m, queries, order=None):
     put('str', lambda: str(m))
     put('atoms_order', lambda: sorted(m.atoms_order.items()))
     put('smiles_atoms_order', lambda: list(m.smiles_atoms_order))
+    put('format-without-stereo', lambda: format(m, '!s'))
+    put('format-hydrogens', lambda: format(m, 'h'))
+    put('fast-mapping-to-copy', lambda: sorted((m.get_fast_mapping(m.copy()) or {}).items()))
     put('sssr', lambda: [list(r) for r in m.sssr])
     put('components', lambda: [sorted(c) for c in m.connected_components])
     put('linear_hash_set', lambda: sorted(m.linear_hash_set(min_radius=1, max_radius=4)))
@@ -37,6 +40,8 @@ def views(m, queries, order=None):
     elif isinstance(order, int):
         random.Random(order).shuffle(todo)
     for name, f in todo:
+        if only is not None and name != only:
+            continue
         try:
             out[name] = f()
         except Exception as e:
@@ -77,7 +82,23 @@ def main():
             std = str(s)
         except Exception as e:
             std = 'raise:' + type(e).__name__
-        for call, vs in (('first', first), ('second', second), ('copy', third), ('reversed-order', rev), ('shuffled-order', shuf), ('after-shuffled', after)):
+        # every view on a copy of its own on which nothing else was evaluated before (nothing cached), and once more right after it
+        alone, twice = {}, {}
+        for name in first:
+            c1 = m.copy()
+            alone.update(views(c1, queries, only=name))
+            twice.update(views(c1, queries, only=name))
+        # one view first, then one of the order-defining views on the same object (what the first view cached must not change it)
+        primed = []
+        for name in ('format-without-stereo', 'format-hydrogens', 'atoms_order', 'pack', 'linear_hash_set', 'split', 'str'):
+            for target in ('str', 'smiles_atoms_order', 'atoms_order', 'fast-mapping-to-copy', 'format-without-stereo'):
+                if target == name:
+                    continue
+                c2 = m.copy()
+                views(c2, queries, only=name)
+                primed.append((f'after-{name}', views(c2, queries, only=target)))
+        for call, vs in (('first', first), ('second', second), ('copy', third), ('reversed-order', rev), ('shuffled-order', shuf), ('after-shuffled', after),
+                         ('alone', alone), ('alone-twice', twice), *primed):
             for v, val in vs.items():
                 print(json.dumps({'input': smi, 'view': v, 'proc': f'{tag}/{call}', 'val': val}))
         print(json.dumps({'input': smi, 'view': 'canonicalize', 'proc': tag, 'val': canon}))
